@@ -32,19 +32,19 @@ open UtilModel UtilModel.Lin
 structure Node where
   val : Nat
   next : Option Nat
-deriving DecidableEq, Repr
+deriving DecidableEq, Repr, Hashable
 
 /-- abstract operations / results of the sequential stack (also used by the monitor) -/
 inductive SOp where
   | push (v : Nat)
   | pop
-deriving DecidableEq, Repr
+deriving DecidableEq, Repr, Hashable
 
 inductive SRes where
   | ack              -- Push returned
   | val (v : Nat)    -- Pop returned `v` (the zero value `0` when empty)
   | panic
-deriving DecidableEq, Repr
+deriving DecidableEq, Repr, Hashable
 
 /-- per-call state = program counter + registers -/
 inductive TS where
@@ -56,13 +56,13 @@ inductive TS where
   | popDone (r : Nat)                      -- Pop will return `r`
   | crashed                                -- dereferenced a pointer that is not a heap node
   | retd (op : SOp) (r : SRes)             -- the call has returned
-deriving DecidableEq, Repr
+deriving DecidableEq, Repr, Hashable
 
 structure St where
   heap : List Node := []
   top : Option Nat := none
   th : List TS := []
-deriving DecidableEq, Repr
+deriving DecidableEq, Repr, Hashable
 
 inductive Obs where
   | invPush (t v : Nat)     -- `inv t push v`
@@ -70,7 +70,7 @@ inductive Obs where
   | invPop (t : Nat)        -- `inv t pop`
   | retPop (t v : Nat)      -- `ret t pop v`
   | retPanic (t : Nat)      -- `ret t panic`
-deriving DecidableEq, Repr
+deriving DecidableEq, Repr, Hashable
 
 inductive Ev where
   | invPush (t v : Nat)
@@ -80,7 +80,7 @@ inductive Ev where
   | retPush (t : Nat)
   | retPop (t v : Nat)
   | retPanic (t : Nat)
-deriving DecidableEq, Repr
+deriving DecidableEq, Repr, Hashable
 
 def Ev.obs : Ev → Option Obs
   | .invPush t v => some (.invPush t v)
